@@ -275,6 +275,17 @@ func levelGuarded(l leafAt, lc levelCheck) bool {
 	return !reachable(def, edgeSet{lc.edge: true}, nil)[l.blk]
 }
 
+// c11CompareDeviations: the decisions under which mavenutil.CompareVersions does not return
+// semver's own comparison (regenerate candidates with SCALINT_LEARN=1, confirm each by reading).
+var c11CompareDeviations = []string{
+	"nil:*deps.dev/util/semver.Version == param1", // an unparsable version sorts first
+	"nil:*deps.dev/util/semver.Version == param2",
+	// commons-*: date-versioned releases (200x….) before the semver ones
+	"strings.HasPrefix(deps.dev/util/semver.Version.String(param1),\"200\":string) != strings.HasPrefix(deps.dev/util/semver.Version.String(param2),\"200\":string)",
+	// guava: the other flavour (-android / -jre) sorts first
+	"strings.HasSuffix(deps.dev/util/semver.Version.String(param1),\"-android\":string) != strings.HasSuffix(deps.dev/util/semver.Version.String(param2),\"-android\":string)",
+}
+
 func runC11(p *Prog, r *Report) {
 	r.Rule("D1-level-guard", "a candidate becomes the chosen version only after Allows(level, diff(base, candidate)) held")
 	r.Rule("D2-right-level", "the level is Config.Get(UpgradeConfig, name of the package being changed)")
@@ -290,6 +301,19 @@ func runC11(p *Prog, r *Report) {
 	r.Rule("D7-choose-patches", "which candidate patches are applied together is decided by the audited compatibility tests (shared with C12)")
 	if ch := p.Func(pkgGR, "choosePatches"); ch != nil {
 		frozenSkips(p, r, "D7-choose-patches", "choosePatches", ch, isAppendOf("Patch"), c12Sanctioned[tableKey(c12Sanctioned, ch)], "CHOOSE", "a patch is applied (or left out) under another compatibility test than the audited ones: e.g. a child override is applied together with the parent upgrade that already fixes the same vulnerability, pulling the child below the version it would resolve to")
+	}
+	r.Rule("D9-ecosystem-order", "candidates are ordered by the ecosystem's own version order, except for the audited package-specific workarounds")
+	if cv := p.Func("internal/mavenutil", "CompareVersions"); cv != nil {
+		frozenFnSkips(p, r, "D9-ecosystem-order", "mavenutil.CompareVersions", cv, func(in ssa.Instruction) bool {
+			ret, ok := in.(*ssa.Return)
+			if !ok || len(ret.Results) != 1 {
+				return false
+			}
+			c, _ := callValue(retVal(ret, 0))
+			return c != nil && refOf(c.Common()).Name == "Compare" && strings.HasPrefix(refOf(c.Common()).Pkg, pkgSemver)
+		}, c11CompareDeviations, "MVNCMP", "mavenutil.CompareVersions answers without asking the ecosystem's comparison under a condition that is not one of the audited workarounds (nil operands, guava flavours, date-versioned commons-* releases): \"the greater version\" is then not the greater version in Maven's order, and both the override and the update strategy can propose a downgrade")
+	} else {
+		r.Undecided("D9-ecosystem-order", "anchor:mavenutil.CompareVersions", "-", "not found")
 	}
 	r.Rule("D8-config-strings", "package:level strings are split at the last colon")
 	c11LastColon(p, r, "D8-config-strings")
